@@ -172,7 +172,7 @@ def run(ck):
     for kf in PENDING_KNOWN:
         if not any(k.get("key") == kf["key"] for k in ck.known):
             ck.known.append(kf)
-    ck.try_prove("C08.v", model_vo=("theories/Front.vo",))
+    ck.try_prove("C08.v", model_vo=("theories/Front.vo", "theories/Spec.vo"))
 
     specs = []
     for j in fs.load_corpus("C08"):
